@@ -49,6 +49,8 @@ let parse_op toks = match toks with
   | "appvals" :: x :: zs -> OAppendVals (n x, List.map (fun z -> z_of_int (int_of_string z)) zs)
   | ["inshint"; x; p; ka; va] -> OInsHint (n x, parse_pos p, parse_arg ka, parse_arg va)
   | ["sort"; x] -> OSort (n x)
+  | ["insw"; x; "f"; ka; va] -> OInsVia (n x, true, parse_arg ka, parse_arg va)
+  | ["insw"; x; "b"; ka; va] -> OInsVia (n x, false, parse_arg ka, parse_arg va)
   | _ -> failwith ("bad op: " ^ String.concat " " toks)
 
 let oz_str o = match o with Some z -> string_of_int (int_of_z z) | None -> "_"
@@ -90,8 +92,12 @@ let err_str e = match e with
 type mstate = Running of state | Dead
 
 let model_line res (before : state) (after : state) =
-  Printf.sprintf "%s | %s ; live=%d bad=0 | ev=%s nb=%d caps=%s" res
-    (sstate_str (abs after)) (List.length after.sw.heap)
+  (* observable section: contents, the instances the contents account for (all live instances minus
+     what the containers keep for themselves), anomalies; model section: all live instances, events *)
+  let a = abs after in
+  let live = List.length after.sw.heap in
+  Printf.sprintf "%s | %s ; stored=%d bad=0 | live=%d ev=%s nb=%d caps=%s" res
+    (sstate_str a) (live - int_of_nat (sbase a)) live
     (new_events before.sw after.sw) (List.length after.sw.blks) (caps_str after)
 
 (* find: the result token carries the index of the element found *)
@@ -130,7 +136,7 @@ let () =
          let o = parse_op toks in
          let (did, s') = spec_step s o in
          let tok = res_token did o (fun () -> match o with OFind (x, ka) -> spec_found s x ka | _ -> None) in
-         emit (Printf.sprintf "%s | %s ; live=%d bad=0" tok
-                 (sstate_str s') (int_of_nat (slive s')));
+         emit (Printf.sprintf "%s | %s ; stored=%d bad=0" tok
+                 (sstate_str s') (int_of_nat (sstored s')));
          s')
       (fun _ -> emit "end | live=0 bad=0 nb=0")
